@@ -35,7 +35,7 @@ EVENT_PROPS = {
     "C15": ["MsgRT", "MsgDec", "Compact", "Direct", "NodesFile", "NodesFileRaw"],
 }
 INV_PROPS = {"KeepsKNearest": ["C18"]}
-MAX_FINDINGS = 4          # per chunk: the violation is established, the rest of the chunk is left unvalidated
+MAX_FINDINGS = 2          # per chunk: the violation is established, the rest of the chunk is left unvalidated
 
 RULES = {
     "C18": "a 2- and 3-bit ID universe embedded at every bit offset 0..160-W with random/zero/all-ones filler (all pairs: "
@@ -496,7 +496,9 @@ def run(prop, tier, seed, replay=None):
     distinct = len(set(hashlib.sha1(re.sub(r'"seg":\d+', "", x).encode()).digest() for x in lines))
     cov.update(evaluations=len(lines), records_accepted=accepted, records_unvalidated=unvalidated, distinct_nontrivial=distinct,
                deviations_without_property_violation=deviations, panics_recorded=st["panics"], ops=st["ops"],
-               vacuity_canaries_rejected=ncan, tlc_validation_runs=runs, rule=RULES[prop], exhaustive=False,
+               vacuity_canaries_rejected=ncan, tlc_validation_runs=runs, exhaustive=False,
+               rule=RULES[prop] + "; distinct_nontrivial counts the records that differ in operation, arguments or outcome "
+                                  "(the segment number is ignored)",
                events=EVENT_PROPS[prop], invariants=[i for i, p in INV_PROPS.items() if prop in p], replay=bool(replay),
                selftest_fast_mode=fast)
     log("  validated: %d/%d records accepted in %d segments, %d deviations, %d findings, %d unvalidated  (%d TLC runs, %.1fs)"
